@@ -330,8 +330,13 @@ def main(props):
         else:
             ctx.replay = None
         ctx.selftest = a.selftest
-        fn(ctx)
-        rc = ctx.finish()
+        if a.selftest:
+            import props
+            props.selftest(ctx)
+            rc = 0
+        else:
+            fn(ctx)
+            rc = ctx.finish()
     except Infra as ex:
         log("INFRA-ERROR property=%s: %s" % (a.prop, ex))
         rc = 2
